@@ -56,7 +56,7 @@ def plain(tag):
 
 
 PLACEMENTS = ["same_variable_plain_in_default", "on_plural_count", "on_range_count", "top_default", "only_other_locale", "nested_subkeys", "second_namespace", "in_range_branch", "in_plural_form",
-              "in_component", "fk_argument", "via_fk_target", "other_locale_in_subkeys_of_namespace"]
+              "in_component", "fk_argument", "fk_argument_single_var", "via_fk_target", "other_locale_in_subkeys_of_namespace"]
 
 
 def project_for(fam, placement):
@@ -122,6 +122,12 @@ def project_for(fam, placement):
             return None, None
         files = {l: {"t": S(l + " hello ", V("name")), "k": S(FK("t", {"name": S("<", V("v", fmt(fam)), ">")}))} for l in locs}
         return Project("en", locs, files), exp
+    if placement == "fk_argument_single_var":
+        # the argument is exactly one formatted variable (a different parser path from text around a variable)
+        if fam.startswith("plural") or fam == "none":
+            return None, None
+        files = {l: {"t": S(l + " hello ", V("name")), "k": S("to ", FK("t", {"name": S(V("v", fmt(fam)))}))} for l in locs}
+        return Project("en", locs, files), exp
     if placement == "via_fk_target":
         files = {l: {"t": u(l), "k": S("see: ", FK("t")), "p": plain(l)} for l in locs}
         return Project("en", locs, files), exp
@@ -154,6 +160,18 @@ def concrete_cases(tier, seed):
             files = {l: {top_key: unit(first, l), nested_key: SUB({"q": plain(l), "deep": SUB({"k": unit(second, l)})})} for l in ("en", "fr")}
             exp = ({FAMILY_OPTION[first]} | {FAMILY_OPTION[second]}) - {None}
             cases.append((Case(Project("en", ["en", "fr"], files), "c20_two/%s_top_%s_nested_%s" % (first, second, nested_key), roles={"*": "two_families"}), exp))
+    # all five option families in one project, each first met on a different key, in several key orders; the last one
+    # nested in subkeys of the non-default locale only
+    five = ["plural_cardinal", "number", "date", "list", "currency"]
+    for r in range(5):
+        order = five[r:] + five[:r]
+        files = {l: {} for l in ("en", "fr")}
+        for i, fam in enumerate(order[:4]):
+            for l in ("en", "fr"):
+                files[l]["k%d_%s" % (i, fam)] = unit(fam, l)
+        for l in ("en", "fr"):
+            files[l]["z_grp"] = SUB({"q": plain(l), "deep": SUB({"k": (unit(order[4], l) if l == "fr" else plain(l))})})
+        cases.append((Case(Project("en", ["en", "fr"], files), "c20_two/all_five_%d" % r, roles={"*": "two_families"}), {FAMILY_OPTION[f] for f in five}))
     if tier == "quick":
         # every family and every placement at least once, rotating with the seed
         keep = []
